@@ -202,15 +202,22 @@ void src_problem::setup_terminals(typing t)
   std::string variables;
 
   category_set categories(training_.columns, t);
+  unsigned var_id(0);
   for (std::size_t i(1); i < columns.size(); ++i)
   {
+    // A column without a domain (no value in the first rows of the dataset)
+    // isn't stored in the examples (see `dataframe::to_example`), so it has
+    // no variable and doesn't take up an index of the input vector.
+    if (columns[i].domain == d_void)
+      continue;
+
     // Sets up the variables (features).
     const auto provided_name(columns[i].name);
     const auto name(provided_name.empty() ? "X" + std::to_string(i)
                                           : provided_name);
     const category_t category(categories.column(i).category);
 
-    if (insert<variable>(name, static_cast<unsigned>(i - 1), category))
+    if (insert<variable>(name, var_id++, category))
       variables += " `" + name + "`";
 
     // Sets up states for nominal attributes.
